@@ -170,8 +170,10 @@ def field_inv(self):
 
 # ---------------------------------------------------- operator wrappers (C03/C08)
 _UNARY = ["__neg__", "__abs__"]
-_UNARY_PROPS = ["norm", "orientation", "real", "imag", "conjugate", "phase"]
+_UNARY_PROPS = ["norm", "orientation", "real", "imag", "conjugate", "phase", "abs"]
 _BINARY = [
+    "__rmatmul__",
+    "__rand__",
     "__add__",
     "__radd__",
     "__sub__",
@@ -301,6 +303,56 @@ def _wrap_ufunc(Field):
     return True
 
 
+# ------------------------------------------------- lattice contracts (C01, ambient)
+def _wrap_lattice(Mesh):
+    """Passive post-conditions on Mesh.index2point / point2index (sound for any use)."""
+    eps = np.finfo(float).eps
+    i2p, p2i = Mesh.index2point, Mesh.point2index
+
+    @functools.wraps(i2p)
+    def index2point(self, index, /):
+        res = i2p(self, index)
+        rec = core.rec()
+        try:
+            reg = self._region
+            pmin, pmax, n = reg._pmin.astype(float), reg._pmax.astype(float), self._n
+            cell = (pmax - pmin) / n
+            exp = pmin + (np.atleast_1d(np.asarray(index)) + 0.5) * cell
+            tol = 16 * eps * np.maximum(np.abs(pmin), np.abs(pmax)) + 1e-12 * cell
+            ok = np.shape(res) == exp.shape and bool(np.all(np.abs(res - exp) <= tol))
+        except Exception as e:  # noqa: BLE001 - malformed state is the invariants' business
+            rec.notes["amb.index2point.unjudged"] += 1
+            return res
+        rec.check("amb.index2point.formula", ok, index=index, got=res, expected=exp)
+        return res
+
+    @functools.wraps(p2i)
+    def point2index(self, point, /):
+        res = p2i(self, point)
+        rec = core.rec()
+        try:
+            reg = self._region
+            pmin, pmax, n = reg._pmin.astype(float), reg._pmax.astype(float), self._n
+            cell = (pmax - pmin) / n
+            p = np.atleast_1d(np.asarray(point, dtype=float))
+            idx = np.asarray(res)
+            band = 4 * reg._tolerance_factor * (np.min(pmax - pmin) + np.abs(p)) + 8 * eps * np.abs(p)
+            lo, hi = pmin + idx * cell, pmin + (idx + 1) * cell
+            ok = (idx.shape == n.shape and bool(np.all(idx >= 0) and np.all(idx < n))
+                  and bool(np.all(p >= lo - band - 4 * eps * np.abs(lo))
+                           and np.all(p <= hi + band + 4 * eps * np.abs(hi))))
+        except Exception:  # noqa: BLE001
+            rec.notes["amb.point2index.unjudged"] += 1
+            return res
+        rec.check("amb.point2index.cell_contains_point", ok, point=point, got=res,
+                  pmin=pmin, pmax=pmax, n=n)
+        return res
+
+    Mesh.index2point = index2point
+    Mesh.point2index = point2index
+    return 2
+
+
 # -------------------------------------------------------------------------- main
 def attach_all(rec=None):
     """Attach everything once; returns the list of attached monitor names."""
@@ -329,6 +381,8 @@ def attach_all(rec=None):
         if isinstance(df.Field.__dict__.get(name), property):
             n_ops += _wrap_op(df.Field, name, "property")
     n_ops += _wrap_ufunc(df.Field)
+    n_ops += _wrap_lattice(df.Mesh)
+    attached += ["amb.index2point.formula", "amb.point2index.cell_contains_point"]
     attached += ["amb.operand_untouched", "amb.valid.propagation", "amb.valid.no_alias"]
     _ATTACHED = attached + [f"operator_wrappers={n_ops}"]
     return _ATTACHED
